@@ -59,6 +59,7 @@ pub trait Machine: Clone {
     fn temp_as_reg(t: Self::Temp) -> Option<usize>;
     fn temp_as_spill(t: Self::Temp) -> Option<usize>;
     /// registers the backend may clobber as scratch
+    fn set_zero_region(&mut self, lo: u64, hi: u64);
     fn scratch_regs() -> Vec<usize>;
     fn render(code: &[Self::Code]) -> Vec<String> {
         code.iter().map(|c| format!("{c:?}")).collect()
